@@ -22,6 +22,10 @@ def getP (p : Params) (a : String) : Val := (p.lookup a).getD 0
 structure Obj where
   cls : String
   params : Params
+  /-- the memo dict in the instance `__dict__` (index into `MState.dicts`), once it exists -/
+  memo : Option Nat := none
+  /-- the key-attribute values the instance memo was filled for -/
+  filled : Option (List Val) := none
   /-- the constructor arguments (what a lambda created in `__init__` captured by value) -/
   snapshot : Params
   /-- the object whose `__init__` created the lambdas stored on this object
@@ -36,6 +40,8 @@ abbrev CKey := Nat × Nat × List Val × Args
 structure MState (Out : Type) where
   heap : List Obj
   cache : List (CKey × Out)
+  /-- memo dicts held in instance `__dict__`s: key (site, arguments) -/
+  dicts : List (List ((Nat × Args) × Out)) := []
 
 inductive MOp where
   | new (cls : String) (p : Params)
@@ -69,7 +75,7 @@ def specEnv (h : List Obj) (i : Nat) (r : Read) : Val := getP (paramsOf h i) r.a
 
 def emptySite : MemoSite :=
   { cls := "", method := "", line := 0, cached := false, keyParams := [], keyAttrs := [],
-    reads := [], calls := [] }
+    reads := [], calls := [], placement := .module }
 
 def siteAt (sites : List MemoSite) (k : Nat) : MemoSite := sites.getD k emptySite
 
@@ -84,6 +90,25 @@ def copyTarget (h : List Obj) (src : Nat) : CopyKind → Nat
 section
 variable {Out : Type} (sites : List MemoSite) (F : Nat → (Read → Val) → Args → Out)
 
+/-- a memoised method whose results live in a dict on the instance: the dict is created on first
+    use, emptied when the key attributes differ from the ones it was filled for, and looked up by
+    (method, arguments).  `copy.copy` hands the *same* dict to the copy. -/
+def evalInstance (st : MState Out) (i k : Nat) (x : Args) : MState Out × Option Out :=
+  match st.heap[i]? with
+  | none => (st, none)
+  | some o =>
+    let pars := (siteAt sites k).keyAttrs.map (fun a => getP o.params a)
+    let d := o.memo.getD st.dicts.length
+    let dicts0 := if o.memo.isSome then st.dicts else st.dicts ++ [[]]
+    let dicts1 := if o.filled == some pars then dicts0 else dicts0.set d []
+    let o' := { o with memo := some d, filled := some pars }
+    match (dicts1.getD d []).lookup (k, x) with
+    | some out => ({ st with heap := st.heap.set i o', dicts := dicts1 }, some out)
+    | none =>
+      let out := F k (resolve st.heap i) x
+      ({ st with heap := st.heap.set i o',
+                 dicts := dicts1.set d (((k, x), out) :: dicts1.getD d []) }, some out)
+
 def stepM (st : MState Out) : MOp → MState Out × Option Out
   | .new cls p =>
     ({ st with heap := st.heap ++ [{ cls := cls, params := p, snapshot := p,
@@ -92,7 +117,10 @@ def stepM (st : MState Out) : MOp → MState Out × Option Out
     match st.heap[src]?, kind with
     | none, _ => (st, none)
     | some _, .alias => (st, none)
-    | some o, _ => ({ st with heap := st.heap ++ [o] }, none)
+    | some o, .shallow => ({ st with heap := st.heap ++ [o] }, none)      -- shares `o.memo`
+    | some o, .deep =>                                                    -- a dict of its own
+      ({ st with heap := st.heap ++ [{ o with memo := o.memo.map (fun _ => st.dicts.length) }],
+                 dicts := st.dicts ++ [st.dicts.getD (o.memo.getD 0) []] }, none)
   | .setParam i a v =>
     match st.heap[i]? with
     | none => (st, none)
@@ -100,6 +128,7 @@ def stepM (st : MState Out) : MOp → MState Out × Option Out
   | .eval i k x =>
     if i < st.heap.length then
       if (siteAt sites k).cached then
+        if (siteAt sites k).placement == .instance then evalInstance sites F st i k x else
         match st.cache.lookup (keyOf sites st.heap i k x) with
         | some out => (st, some out)
         | none =>
@@ -120,7 +149,7 @@ def outsM (st : MState Out) : List MOp → List (Option Out)
 
 end
 
-def initM {Out : Type} : MState Out := { heap := [], cache := [] }
+def initM {Out : Type} : MState Out := { heap := [], cache := [], dicts := [] }
 
 /-- the most general body reading `reads`: it returns what it read and its arguments -/
 def freeBody (sites : List MemoSite) (k : Nat) (e : Read → Val) (x : Args) : List Val × Args :=
@@ -133,7 +162,8 @@ def isPublic (a : String) : Bool := publicAttrs.contains a
     only attributes that are in its key or that the public API cannot change -/
 def siteOK (pub : String → Bool) (s : MemoSite) : Bool :=
   s.reads.all (fun r => r.kind == .direct) &&
-  (!s.cached || s.reads.all (fun r => s.keyAttrs.contains r.attr || !pub r.attr))
+  (!s.cached || s.reads.all (fun r => s.keyAttrs.contains r.attr || !pub r.attr)) &&
+  (!s.cached || s.placement == .module)
 
 def copyOK (c : CopySite) : Bool := c.kind != .alias
 
@@ -348,6 +378,18 @@ def stepA (c : Ctx) (st : AState) : AOp → Except Err AState
     | none => .error .badRef
     | some a => if a.writeable then .ok { st with written := a.buf :: st.written }
                 else .error .readOnly
+  | .viewOf src =>
+    -- np.moveaxis / .T / basic indexing: another array object on the same buffer (its shape is
+    -- not followed: the record is carried over)
+    match st.objs[src]? with
+    | none => .error .badRef
+    | some a => .ok { st with objs := st.objs ++ [a] }
+  | .computed =>
+    -- the result of an arithmetic routine: a new writeable array in a new buffer (contents not
+    -- followed)
+    .ok { st with objs := st.objs ++ [{ buf := st.nextBuf, shape := [1], strides := [1],
+                                        writeable := true, vals := [] }],
+                  nextBuf := st.nextBuf + 1 }
 
 def runA (c : Ctx) (st : AState) : List AOp → Except Err AState
   | [] => .ok st
@@ -408,6 +450,11 @@ def stepL (c : Ctx) (ls : List LObj) : AOp → Except SErr (List LObj)
     | none => .error (.err .badRef)
     | some a => if a.own then (if a.ro then .error (.err .readOnly) else .ok ls)
                 else .error .layoutDependent
+  | .viewOf src =>
+    match ls[src]? with
+    | none => .error (.err .badRef)
+    | some a => .ok (ls ++ [a])
+  | .computed => .ok (ls ++ [{ shape := [1], vals := [], own := true, ro := false }])
 
 def runL (c : Ctx) (ls : List LObj) : List AOp → Except SErr (List LObj)
   | [] => .ok ls
@@ -487,6 +534,11 @@ def stepS (rank : Nat) (ss : List SymObj) : AOp → Option (List SymObj)
     match ss[tgt]? with
     | some a => if a.own && !a.ro then some ss else none
     | none => none
+  | .viewOf src =>
+    match ss[src]? with
+    | some a => some (ss ++ [{ a with shape := .unknown }])
+    | none => none
+  | .computed => some (ss ++ [{ shape := .unknown, own := true, ro := false }])
 
 def runS (rank : Nat) (ss : List SymObj) : List AOp → Option (List SymObj)
   | [] => some ss
